@@ -84,3 +84,138 @@ Lemma placeholder_prefixes_do_not_overlap :
   (* not ASCII letters, digits or `_` only: cannot collide with an identifier the user wrote; no `$` left *)
   existsb (fun b => Nat.ltb 127 b) gen_varPrefix_bytes = true /\ existsb (fun b => Nat.ltb 127 b) gen_varSeqPrefix_bytes = true.
 Proof. repeat split; try (vm_compute; reflexivity); discriminate. Qed.
+
+(* ================================================================ the control skeleton of the matcher (go2coq c10skel.go) *)
+From RG.Types Require Import MatchSkel.
+
+(* the clauses that are translated, the type each of them asserts, their local definitions; the rest binds variables in the
+   matcher state (opVar, opArray) or is translated statement by statement elsewhere (opNamed -> gen_named_clause) *)
+Lemma translated_clauses :
+  map (fun lc => (fst lc, cl_assert (snd lc))) gen_clauses =
+    [("opBuiltinType", ""); ("opPointer", "*types.Pointer"); ("opSlice", "*types.Slice"); ("opMap", "*types.Map"); ("opChan", "*types.Chan");
+     ("opFuncNoSeq,opFunc", "*types.Signature"); ("opStructNoSeq,opStruct", "*types.Struct"); ("opAnyInterface", "")] /\
+  gen_untranslated_cases = ["opVar"; "opArray"; "opNamed"] /\
+  gen_matcher_params = ["p: state, sub, typ, k"; "p: state, subs, f, from, k"] /\
+  map (fun lc => (fst lc, cl_lets (snd lc))) (filter (fun lc => negb (Nat.eqb (List.length (cl_lets (snd lc))) 0)) gen_clauses) =
+    [("opChan", [("dir", "sub.value.(types.ChanDir)")]);
+     ("opFuncNoSeq,opFunc", [("numParams", "sub.value.(int)"); ("params", "sub.subs[:numParams]"); ("results", "sub.subs[numParams:]")]);
+     ("opAnyInterface", [("ok", "typ.(*types.Interface)")])].
+Proof. repeat split; vm_compute; reflexivity. Qed.
+
+Definition the_clause (label : string) : clause :=
+  match lookup_s gen_clauses label with Some c => c | None => Clause "?" [] ["<missing clause>"] (MConst false) end.
+Definition tbl {A} (l : list (string * A)) : string -> option A := lookup_s l.
+Definition no {A} : string -> option A := fun _ => None.
+
+(* ---- per constructor: the model's case IS the meaning of the translated clause, for every identity test, sub-patterns,
+   matched type, state and continuation. The environments say what the Go names of the clause stand for: `sub.subs[i]` the i-th
+   sub-pattern, `typ.Elem()` / `typ.Key()` the component types, the fielders the parameter / result / field types. *)
+Ltac skel_case_t :=
+  intros; cbn [match_k]; cbv zeta;
+  match goal with |- context [unalias_top ?t] => destruct (unalias_top t) as [h xs] end;
+  repeat first [reflexivity
+               | match goal with |- context [match ?x with _ => _ end] => is_var x; destruct x end
+               | match goal with |- context [?v && negb (last_is_seq ?ps)] => destruct (v && negb (last_is_seq ps)) end].
+
+Ltac skel_case :=
+  intros; cbn [match_k]; cbv zeta;
+  repeat first [reflexivity | match goal with |- context [match ?x with _ => _ end] => is_var x; destruct x end].
+
+Section SkelCases.
+  Variable ident : gtype -> gtype -> bool.
+
+  Lemma builtin_case : forall b t st k,
+    match_k ident (PBuiltin b) t st k =
+    clause_sem ident (Env no no no no (tbl [("xtypes.Identical(typ, sub.value.(types.Type))", ident (unalias_top t) b)])) (the_clause "opBuiltinType") st k.
+  Proof. intros. reflexivity. Qed.
+
+  Lemma pointer_case : forall q t st k,
+    match_k ident (PPointer q) t st k =
+    match unalias_top t with
+    | T HPointer [e] => clause_sem ident (Env (tbl [("sub.subs[0]", q)]) no (tbl [("typ.Elem()", e)]) no no) (the_clause "opPointer") st k
+    | _ => false
+    end.
+  Proof. skel_case_t. Qed.
+
+  Lemma slice_case : forall q t st k,
+    match_k ident (PSlice q) t st k =
+    match unalias_top t with
+    | T HSlice [e] => clause_sem ident (Env (tbl [("sub.subs[0]", q)]) no (tbl [("typ.Elem()", e)]) no no) (the_clause "opSlice") st k
+    | _ => false
+    end.
+  Proof. skel_case_t. Qed.
+
+  (* the key's continuation is the match of the value followed by k: a `$*_` run inside the key is revisited when the value
+     (or anything after the map) rejects the binding *)
+  Lemma map_case : forall a b t st k,
+    match_k ident (PMap a b) t st k =
+    match unalias_top t with
+    | T HMap [kt; vt] =>
+      clause_sem ident (Env (tbl [("sub.subs[0]", a); ("sub.subs[1]", b)]) no (tbl [("typ.Key()", kt); ("typ.Elem()", vt)]) no no)
+                 (the_clause "opMap") st k
+    | _ => false
+    end.
+  Proof. skel_case_t. Qed.
+
+  Lemma chan_case : forall d q t st k,
+    match_k ident (PChan d q) t st k =
+    match unalias_top t with
+    | T (HChan d') [e] =>
+      clause_sem ident (Env (tbl [("sub.subs[0]", q)]) no (tbl [("typ.Elem()", e)]) no (tbl [("dir == typ.Dir()", N.eqb d d')]))
+                 (the_clause "opChan") st k
+    | _ => false
+    end.
+  Proof. skel_case_t. Qed.
+
+  (* parameters first, with the match of the results followed by k as their continuation; a variadic signature is rejected
+     unless the parameter patterns end in `$*_` *)
+  Lemma func_case : forall ps rs t st k,
+    match_k ident (PFunc ps rs) t st k =
+    match unalias_top t with
+    | T (HSig v) [T HTuple pts; T HTuple rts] =>
+      clause_sem ident
+        (Env no (tbl [("params", ps); ("results", rs)]) no
+             (tbl [("&tupleFielder{x: typ.Params()}", pts); ("&tupleFielder{x: typ.Results()}", rts)])
+             (tbl [("typ.Variadic() && (numParams == 0 || params[numParams-1].op != opVarSeq)", v && negb (last_is_seq ps))]))
+        (the_clause "opFuncNoSeq,opFunc") st k
+    | _ => false
+    end.
+  Proof. skel_case_t. Qed.
+
+  Lemma struct_case : forall fs t st k,
+    match_k ident (PStruct fs) t st k =
+    match unalias_top t with
+    | T (HStruct _) fts => clause_sem ident (Env no (tbl [("sub.subs", fs)]) no (tbl [("typ", fts)]) no) (the_clause "opStructNoSeq,opStruct") st k
+    | _ => false
+    end.
+  Proof. skel_case_t. Qed.
+
+  Lemma any_interface_case : forall t st k,
+    match_k ident PAnyInterface t st k =
+    clause_sem ident (Env no no no no (tbl [("ok", match unalias_top t with T (HInterface _) _ => true | _ => false end)]))
+               (the_clause "opAnyInterface") st k.
+  Proof. skel_case_t. Qed.
+End SkelCases.
+
+(* ---- the continuation discipline, for EVERY call of the matcher in the file (the translated clauses, opArray's two calls,
+   the loop and the element call of matchIdenticalFielder): the continuation handed over ends in the caller's own `k`; the only
+   finished continuation is the one the public entry starts with; nobody else mentions matchDone *)
+Lemma every_continuation_ends_in_k :
+  forallb (fun c => threads_k (snd c) || String.eqb (fst (fst c)) "Pattern.MatchIdentical") gen_cont_args = true /\
+  filter (fun c => String.eqb (fst (fst c)) "Pattern.MatchIdentical") gen_cont_args = [("Pattern.MatchIdentical", "matchIdentical", KDone)] /\
+  gen_matchdone_uses = ["Pattern.MatchIdentical"] /\
+  forallb (fun lc => threads_m (cl_ret (snd lc))) gen_clauses = true /\
+  map (fun c => fst (fst c)) gen_cont_args =
+    ["opPointer"; "opSlice"; "opArray"; "opArray"; "opMap"; "opChan"; "opFuncNoSeq,opFunc"; "opStructNoSeq,opStruct";
+     "Pattern.MatchIdentical"; "Pattern.matchIdenticalFielder"; "Pattern.matchIdenticalFielder"].
+Proof. repeat split; vm_compute; reflexivity. Qed.
+
+(* ---- matchIdenticalFielder is the function MatchSkel.fielder_go transcribes (index `from`, the `next` loop of a `$*_`) *)
+Lemma fielder_is_as_transcribed :
+  gen_fielder_stmts =
+    ["if len(subs) == 0 { return from == f.NumFields() && k() }";
+     "pat := subs[0]";
+     "if pat.op == opVarSeq { for next := from; next <= f.NumFields(); next++ { if p.matchIdenticalFielder(state, subs[1:], f, next, k) { return true } } return false }";
+     "if from == f.NumFields() { return false }";
+     "return p.matchIdentical(state, pat, f.Field(from).Type(), func() bool { return p.matchIdenticalFielder(state, subs[1:], f, from+1, k) })"].
+Proof. reflexivity. Qed.
